@@ -39,14 +39,17 @@ package datatype
 //@   ensures len: len(r) == dlen(v)
 //@   ensures bytes: forall i int :: 0 <= i && i < len(r) ==> r[i] == dbyte(v, i)
 //@ end
+//@ # String may be called on anything the decoders produce (C03: "later inspection of a decoded message")
 //@ iface datatype.Type.String(v) (r)
 //@   modifies
+//@   requires dprintable(v)
 //@ end
 //@
 //@ # ---- what every decoder promises (C04: payload and its length are preserved)
 //@ functype datatype.DecoderFunc(f, b) (r, err)
 //@   modifies
 //@   ensures nonnil: err == nil ==> r != nil && valid(r)
+//@   ensures [C03] printable: err == nil ==> printable(r)
 //@   ensures not_a_decoded_group: err == nil ==> !typeis(r, *diam.GroupedAVP)
 //@   ensures [C04] len_preserved: err == nil ==> dlen(r) == len(b)
 //@   ensures [C04] payload_preserved: err == nil ==> forall i int :: 0 <= i && i < len(b) ==> dbyte(r, i) == b[i]
@@ -58,6 +61,8 @@ package datatype
 //@   modifies
 //@   assume decoder_entries_are_functions: forall t TypeID :: has(Decoder, t) ==> Decoder[t] != nil
 //@   ensures nonnil: err == nil ==> r != nil && valid(r)
+//@   ensures [C03] printable: err == nil ==> printable(r)
+//@   ensures not_a_decoded_group: err == nil ==> !typeis(r, *diam.GroupedAVP)
 //@   ensures [C04] len_preserved: err == nil ==> dlen(r) == len(b)
 //@   ensures [C04] payload_preserved: err == nil ==> forall i int :: 0 <= i && i < len(b) ==> dbyte(r, i) == b[i]
 //@   ensures [C06] private: err == nil && !typeis(r, Grouped) ==> !viewsInto(r, b)
@@ -741,4 +746,102 @@ package datatype
 //@   modifies
 //@   requires f != nil
 //@   ensures [C01] decoded_then_serialised_reproduces_the_bytes: out != nil ==> len(out) == len(b) && forall i int :: 0 <= i && i < len(b) ==> out[i] == b[i]
+//@ end
+
+//@ # ---- String methods (C03: rendering a decoded value never panics) ----
+//@ func (Unsigned32).String(v) (r)
+//@   property C03
+//@   modifies
+//@   implements datatype.Type.String
+//@ end
+//@ func (Integer32).String(v) (r)
+//@   property C03
+//@   modifies
+//@   implements datatype.Type.String
+//@ end
+//@ func (Enumerated).String(v) (r)
+//@   property C03
+//@   modifies
+//@   implements datatype.Type.String
+//@ end
+//@ func (Float32).String(v) (r)
+//@   property C03
+//@   modifies
+//@   implements datatype.Type.String
+//@ end
+//@ func (Unsigned64).String(v) (r)
+//@   property C03
+//@   modifies
+//@   implements datatype.Type.String
+//@ end
+//@ func (Integer64).String(v) (r)
+//@   property C03
+//@   modifies
+//@   implements datatype.Type.String
+//@ end
+//@ func (Float64).String(v) (r)
+//@   property C03
+//@   modifies
+//@   implements datatype.Type.String
+//@ end
+//@ func (Time).String(v) (r)
+//@   property C03
+//@   modifies
+//@   implements datatype.Type.String
+//@ end
+//@ func (OctetString).String(v) (r)
+//@   property C03
+//@   modifies
+//@   implements datatype.Type.String
+//@ end
+//@ func (UTF8String).String(v) (r)
+//@   property C03
+//@   modifies
+//@   implements datatype.Type.String
+//@ end
+//@ func (DiameterIdentity).String(v) (r)
+//@   property C03
+//@   modifies
+//@   implements datatype.Type.String
+//@ end
+//@ func (DiameterURI).String(v) (r)
+//@   property C03
+//@   modifies
+//@   implements datatype.Type.String
+//@ end
+//@ func (IPFilterRule).String(v) (r)
+//@   property C03
+//@   modifies
+//@   implements datatype.Type.String
+//@ end
+//@ func (QoSFilterRule).String(v) (r)
+//@   property C03
+//@   modifies
+//@   implements datatype.Type.String
+//@ end
+//@ func (Unknown).String(v) (r)
+//@   property C03
+//@   modifies
+//@   implements datatype.Type.String
+//@ end
+//@ func (IPv4).String(v) (r)
+//@   property C03
+//@   modifies
+//@   implements datatype.Type.String
+//@ end
+//@ func (IPv6).String(v) (r)
+//@   property C03
+//@   modifies
+//@   implements datatype.Type.String
+//@ end
+//@ func (Address).String(v) (r)
+//@   property C03
+//@   modifies
+//@   implements datatype.Type.String
+//@   requires [C03] family_octets_present: len(v) >= 2
+//@ end
+//@ func (Grouped).String(v) (r)
+//@   property C03
+//@   modifies
+//@   implements datatype.Type.String
 //@ end
